@@ -2059,6 +2059,11 @@ lp_feasibility_set_t* lp_polynomial_root_constraint_get_feasible_set(const lp_po
 
 }
 
+static
+int polynomial_cmp_integer_void(const void* a, const void* b) {
+  return integer_cmp(lp_Z, (const lp_integer_t*) a, (const lp_integer_t*) b);
+}
+
 lp_feasibility_set_int_t* lp_polynomial_constraint_get_feasible_set_Zp(const lp_polynomial_t* A, lp_sign_condition_t sgn_condition, int negated, const lp_assignment_t* M) {
   const lp_polynomial_context_t *ctx = lp_polynomial_get_context(A);
   assert(ctx->K != lp_Z);
@@ -2088,6 +2093,10 @@ lp_feasibility_set_int_t* lp_polynomial_constraint_get_feasible_set_Zp(const lp_
   lp_feasibility_set_int_t *result = sgn_condition == LP_SGN_EQ_0 ? lp_feasibility_set_int_new_empty(K) : lp_feasibility_set_int_new_full(K);
 
   lp_upolynomial_roots_find_Zp(upoly, &result->elements, &result->size);
+  // The set operations need the elements sorted, the randomised root finder gives no particular order
+  if (result->size > 1) {
+    qsort(result->elements, result->size, sizeof(lp_integer_t), polynomial_cmp_integer_void);
+  }
 
 #ifndef NDEBUG
   {
